@@ -1,8 +1,146 @@
 (* C11 -- Stochastic quantizers are unbiased, bounded, finite and accounted.
-   Property theorems only; every proof is `exact <lemma>` (Proofs/C11_Proofs.v). *)
-From Coq Require Import ZArith QArith Qabs List Bool.
-From FV Require Import Common.NanQ gen.Gen_compression Model.C11_Model Proofs.C11_Proofs.
+   Property theorems only; every proof is `exact <lemma>` (Proofs/C11_*.v).
+   `usq`, `bsq`, `tern`, `drive_leaf`, `usq_agg` are the NanQ models evaluated by the
+   correspondence check (Model/C11_Model.v); `lift v = map Some v` is a finite vector, so
+   every "= lift out" below also says: no NaN / Inf.  The uniform draw of coordinate i is
+   the oracle argument u_i; "P[upper level] = t" is stated as: the output is the upper
+   level exactly for u_i <= t (resp. < t for the binary quantizer), the uniform law on
+   [0,1) being the definition of jax.random.uniform. *)
+From Coq Require Import ZArith QArith Qabs Qminmax List Bool.
+From FV Require Import Common.NanQ Common.QVec Common.WMean gen.Gen_compression gen.Gen_tree_util
+  Model.C07_Model Proofs.C07_Proofs Model.C11_Model Proofs.C11_Proofs Proofs.C11_Quant Proofs.C11_Agg.
 Import ListNotations.
+Local Open Scope Q_scope.
+
+(* every coordinate of uniform_stochastic_quantize is one of the two neighbouring levels
+   lvl kf <= x <= lvl kc (kc = kf or kf + 1) of the (L-1)-step grid between min and max *)
+Theorem C11_usq_neighbouring_levels : forall (v : list Q) (L : Z) (u : list Q) (i : nat),
+  v <> [] -> (2 <= L)%Z -> (i < length v)%nat -> length u = length v ->
+  let m := qmin v in let M := qmax v in let x := nth i v 0 in
+  exists (kf kc : Z) (out : list Q),
+    (0 <= kf <= kc)%Z /\ (kc <= L - 1)%Z /\ (kc = kf \/ kc = kf + 1)%Z /\
+    lvl m M L kf <= x <= lvl m M L kc /\
+    usq (lift v) L u = lift out /\ length out = length v /\
+    (nth i out 0 == lvl m M L kf \/ nth i out 0 == lvl m M L kc) /\
+    m <= nth i out 0 <= M /\ Qabs (nth i out 0 - x) <= step_of m M L.
+Proof.
+  exact (fun v L u i Hv HL Hi Hu =>
+    match usq_coord_spec v L i Hv HL Hi with
+    | ex_intro _ kf (ex_intro _ kc (ex_intro _ t (conj K1 (conj K2 (conj K3 (conj Ht (conj Hx (conj G1 (conj G2 (conj Hub Hout)))))))))) =>
+      match Hout u Hu with
+      | ex_intro _ out (conj E (conj Hl (conj O1 O2))) =>
+        let Hy := match Qlt_le_dec t (nth i u 0) with left H => or_introl (O1 H) | right H => or_intror (O2 H) end in
+        ex_intro _ kf (ex_intro _ kc (ex_intro _ out
+          (conj K1 (conj K2 (conj K3 (conj Hx (conj E (conj Hl (conj Hy
+            (usq_coord_bounds v L i kf kc (nth i out 0) Hv HL K1 K2 K3 Hx Hy))))))))))
+      end
+    end).
+Qed.
+
+(* unbiased: a threshold t (independent of the draws) with (1-t)*lower + t*upper == x, and
+   the set of draws giving the upper level is exactly [0, t] *)
+Theorem C11_usq_unbiased : forall (v : list Q) (L : Z) (i : nat),
+  v <> [] -> (2 <= L)%Z -> (i < length v)%nat ->
+  let m := qmin v in let M := qmax v in let x := nth i v 0 in
+  exists (kf kc : Z) (t : Q),
+    (0 <= kf <= kc)%Z /\ (kc <= L - 1)%Z /\ (kc = kf \/ kc = kf + 1)%Z /\ 0 <= t < 1 /\
+    lvl m M L kf <= x <= lvl m M L kc /\
+    (kc = kf -> t == 0 /\ x == lvl m M L kf) /\
+    (kc = (kf + 1)%Z -> 0 < t /\ lvl m M L kf < x < lvl m M L kc) /\
+    (1 - t) * lvl m M L kf + t * lvl m M L kc == x /\
+    forall u, length u = length v ->
+      exists out, usq (lift v) L u = lift out /\ length out = length v /\
+        (t < nth i u 0 -> nth i out 0 == lvl m M L kf) /\
+        (nth i u 0 <= t -> nth i out 0 == lvl m M L kc).
+Proof. exact usq_coord_spec. Qed.
+
+(* vectors already on the grid, constant vectors and all-zero vectors pass through
+   unchanged, for EVERY draw *)
+Theorem C11_grid_constant_zero_identity :
+  (forall (v : list Q) (L : Z) (i : nat) (k : Z) (u : list Q),
+     v <> [] -> (2 <= L)%Z -> (i < length v)%nat -> length u = length v ->
+     nth i v 0 == lvl (qmin v) (qmax v) L k ->
+     exists out, usq (lift v) L u = lift out /\ length out = length v /\ nth i out 0 == nth i v 0) /\
+  (forall (v : list Q) (L : Z) (u : list Q) (c : Q),
+     v <> [] -> (2 <= L)%Z -> length u = length v -> Forall (fun x => x == c) v ->
+     exists out, usq (lift v) L u = lift out /\ length out = length v /\ Forall (fun y => y == c) out).
+Proof. exact (conj usq_identity_on_grid usq_identity_constant). Qed.
+
+(* binary quantizer: levels {min, max}, (1-t)*min + t*max == x, max exactly for u_i < t;
+   coordinates equal to min or max are unchanged for every draw in [0,1) *)
+Theorem C11_bsq_levels_unbiased_identity : forall (v : list Q) (i : nat),
+  v <> [] -> (i < length v)%nat ->
+  let m := qmin v in let M := qmax v in let x := nth i v 0 in
+  exists t, 0 <= t <= 1 /\ (1 - t) * m + t * M == x /\
+    forall u, length u = length v ->
+      exists out, bsq (lift v) u = lift out /\ length out = length v /\
+        (t <= nth i u 0 -> nth i out 0 = m) /\ (nth i u 0 < t -> nth i out 0 = M) /\
+        (0 <= nth i u 0 < 1 -> x == m \/ x == M -> nth i out 0 == x).
+Proof. exact bsq_coord_spec. Qed.
+
+(* TernGrad: the clipped input xc (clipped at tern_clip * sigma, tern_clip = 5/2 translated
+   from the source), s = the largest clipped magnitude; outputs in {0, s * sign xc} with
+   P[nonzero] = t and t * (s * sign xc) == xc *)
+Theorem C11_terngrad_levels : forall (sigma : Q) (v : list Q) (i : nat) (u : list Q),
+  v <> [] -> (i < length v)%nat -> length u = length v ->
+  let vc := map (tern_clipped_q sigma) v in let s := qmax (map Qabs vc) in let xc := nth i vc 0 in
+  exists out, tern sigma (lift v) u = lift out /\ length out = length v /\ 0 <= s /\
+    (nth i out 0 == 0 \/ nth i out 0 == s * qsign xc) /\
+    (qsign xc = 0 \/ qsign xc = 1 \/ qsign xc = -1 # 1).
+Proof.
+  exact (fun sigma v i u Hv Hi Hu =>
+    match tern_coord_spec sigma v i Hv Hi with
+    | conj Hs (conj _ (ex_intro _ t (conj _ (conj _ Hout)))) =>
+      match Hout u Hu with
+      | ex_intro _ out (conj E (conj Hl (conj O1 O2))) =>
+        ex_intro _ out (conj E (conj Hl (conj Hs (conj
+          (match Qlt_le_dec (nth i u 0) t with left H => or_intror (O2 H) | right H => or_introl (O1 H) end)
+          (let xc := nth i (map (tern_clipped_q sigma) v) 0 in
+           match Q_dec xc 0 with
+           | inleft (left H) => or_intror (or_intror (proj2 (proj2 (qsign_spec xc)) H))
+           | inleft (right H) => or_intror (or_introl (proj1 (qsign_spec xc) H))
+           | inright H => or_introl (proj1 (proj2 (qsign_spec xc)) H)
+           end)))))
+      end
+    end).
+Qed.
+
+Theorem C11_terngrad_unbiased_clipped :
+  (forall sigma x, 0 <= sigma ->
+     tern_clipped_q sigma x == Qmax (- (tern_clip * sigma)) (Qmin x (tern_clip * sigma))) /\
+  tern_clip == 5 # 2 /\
+  (forall (sigma : Q) (v : list Q) (i : nat), v <> [] -> (i < length v)%nat ->
+     let vc := map (tern_clipped_q sigma) v in let s := qmax (map Qabs vc) in let xc := nth i vc 0 in
+     0 <= s /\ Qabs xc <= s /\
+     exists t, 0 <= t <= 1 /\ t * (s * qsign xc) == xc /\
+       forall u, length u = length v ->
+         exists out, tern sigma (lift v) u = lift out /\ length out = length v /\
+           (t <= nth i u 0 -> nth i out 0 == 0) /\ (nth i u 0 < t -> nth i out 0 == s * qsign xc)).
+Proof. exact (conj tern_clipped_q_spec (conj (Qeq_refl _) tern_coord_spec)). Qed.
+
+(* no quantizer produces NaN / Inf on finite input, DRIVE included (all-zero leaf stays zero) *)
+Theorem C11_never_nan :
+  (forall v L u, v <> [] -> (2 <= L)%Z -> usq (lift v) L u = lift (usq_q v L u)) /\
+  (forall v u, v <> [] -> bsq (lift v) u = lift (bsq_q v u)) /\
+  (forall sigma v u, v <> [] -> tern sigma (lift v) u = lift (tern_q sigma v u)) /\
+  (forall x, drive_leaf (lift x) = lift (drive_q x)) /\
+  (forall x, Forall (fun a => a == 0) x -> Forall (fun y => y == 0) (drive_q x)).
+Proof. exact (conj usq_lift (conj bsq_lift (conj tern_lift (conj drive_lift drive_zero_leaf)))). Qed.
+
+(* the aggregator returns the weighted mean (translated tree_mean) of the per-client quantised trees *)
+Theorem C11_aggregate_is_wmean_of_quantised : forall L cl us n,
+  (2 <= L)%Z -> cl <> [] -> clients_ok n cl us ->
+  exists v, usq_agg L (lift_clients cl) us = Some (vlift v) /\
+            v =v= wmean_batch n (map swap (usq_clients_q L cl us)).
+Proof. exact usq_agg_is_wmean. Qed.
+
+(* ... hence coordinate-wise within the largest per-client grid step of the exact weighted mean *)
+Theorem C11_aggregate_error_bound : forall L cl us n e,
+  (2 <= L)%Z -> cl <> [] -> clients_ok n cl us -> 0 <= e ->
+  Forall (fun c => 0 <= snd c /\ steps_le L e (fst c)) cl ->
+  exists v, usq_agg L (lift_clients cl) us = Some (vlift v) /\
+    vclose e (wmean_batch n (map (fun c => (snd c, concat (fst c))) cl)) v.
+Proof. exact usq_agg_error_bound. Qed.
 
 (* keys: the split path used for (round t, client c, leaf l) determines (t, c, l), for all
    four aggregators and all histories; rotation keys of the rotated quantizer are distinct
@@ -29,5 +167,28 @@ Theorem C11_bits_formula : forall L P n r,
   bits_after drive_bits L P n r = (1, 0, r * (P + 64 * n))%Z.
 Proof. exact (fun L P n r => conj (bits_usq L P n r) (conj (bits_rusq L P n r) (conj (bits_tern L P n r) (bits_drive L P n r)))). Qed.
 
+(* non-vacuity *)
+Example C11_example :
+  usq (lift [0; 1; 2]) 3 [1 # 2; 1 # 2; 1 # 2] = lift (usq_q [0; 1; 2] 3 [1 # 2; 1 # 2; 1 # 2]) /\
+  Forall2 Qeq (usq_q [0; 3 # 4; 2] 3 [1 # 2; 1 # 2; 9 # 10]) [0; 1; 2] /\
+  Forall2 Qeq (usq_q [0; 3 # 4; 2] 3 [1 # 2; 4 # 5; 0]) [0; 0; 2] /\
+  Forall2 Qeq (drive_q [0; 0; 0]) [0; 0; 0] /\
+  usq_key 2 1 0 = [0; 0; 1; 0; 1; 0]%nat /\ rusq_key 1 0 2 = [0; 0; 0; 1; 1; 2]%nat /\
+  clients_ok 3 [([[0; 1]; [2]], 1); ([[1; 1]; [0]], 3)] [[[0; 0]; [0]]; [[0; 0]; [0]]].
+Proof.
+  split; [apply usq_lift; discriminate|].
+  repeat split; try (vm_compute; repeat constructor; reflexivity).
+  all: repeat constructor; try discriminate; reflexivity.
+Qed.
+
+Print Assumptions C11_usq_neighbouring_levels.
+Print Assumptions C11_usq_unbiased.
+Print Assumptions C11_grid_constant_zero_identity.
+Print Assumptions C11_bsq_levels_unbiased_identity.
+Print Assumptions C11_terngrad_levels.
+Print Assumptions C11_terngrad_unbiased_clipped.
+Print Assumptions C11_never_nan.
+Print Assumptions C11_aggregate_is_wmean_of_quantised.
+Print Assumptions C11_aggregate_error_bound.
 Print Assumptions C11_keys_distinct.
 Print Assumptions C11_bits_formula.
